@@ -9,16 +9,32 @@ import (
 	"golang.org/x/tools/go/ssa"
 
 	"manticheck/internal/lin"
+	"manticheck/internal/load"
 	"manticheck/internal/prove"
 )
 
 // C15 extension `field-range` (added after an independently seeded change —
 // the clamp of the computed UUID timestamp to the 60-bit maximum removed as
 // "redundant" — was missed): a version-1/2 UUID stores a 60-bit timestamp; a
-// Time value above maxTimestamp is truncated by Marshal and reads back as a
-// date near 1582. Every store to the Time field in SetTime must therefore be
-// PROVED <= maxTimestamp (E1 linear prover, φ-joins over the saturation
-// branches included).
+// Time value above 2^60-1 is truncated by Marshal and reads back as a date
+// near 1582. Every value SetTime makes reach the Time field must therefore be
+// PROVED <= 2^60-1 (E1 linear prover, φ-joins over the saturation branches
+// included).
+//
+// The rule is keyed to the FIELD, not to where the code happens to live:
+//
+//   - the stores are collected over SetTime and every in-module function it
+//     calls (a `setTimestamp(v)` helper may do the store);
+//   - a stored value that is the result of an in-module call is proved on
+//     every return value of the callee (a `timestampFromTime(t) uint64` helper
+//     may do the arithmetic and the clamp), transitively, and a stored value
+//     that is a parameter of an unexported helper is proved on the argument at
+//     every call site;
+//   - instead of counting stores, SetTime must assign Time on EVERY path to
+//     its return (directly or through a callee that does), so dropping one
+//     saturation branch is reported however many stores remain;
+//   - the bound is the width of the wire field (60 bits); a constant named
+//     maxTimestamp, when the package has one, must have that value.
 
 func init() {
 	ck := registry["C15"]
@@ -29,66 +45,306 @@ func init() {
 	ck.Run = func(c *Ctx) {
 		orig(c)
 		c15FieldRange(c)
-		c.R.Explanation += " Extension `field-range`: every value UUIDv1.SetTime / UUIDv2.SetTime stores into Time is proved <= maxTimestamp (2^60-1) by the E1 prover, so saturation cannot be lost at the top of the range."
+		c.R.Explanation += " Extension `field-range`: every value that UUIDv1.SetTime / UUIDv2.SetTime — or an in-module function they call — stores into Time is proved <= 2^60-1 by the E1 prover (values computed by a helper are proved on each of the helper's return values, values passed to an unexported helper on the arguments of each call), and SetTime assigns Time on every path, so saturation cannot be lost at the top of the range."
 	}
 }
 
 func c15FieldRange(c *Ctx) {
 	const rule = "field-range"
 	p, r := c.P, c.R
-	w := prove.NewWorld(p)
-	for _, spec := range [][2]string{{"crypto/uuid/uuid_v1", "UUIDv1"}, {"crypto/uuid/uuid_v2", "UUIDv2"}} {
+	w := sharedWorld(p)
+	want := new(big.Int).Sub(new(big.Int).Lsh(big.NewInt(1), 60), big.NewInt(1))
+	var log []string
+	specs := [][2]string{{"crypto/uuid/uuid_v1", "UUIDv1"}, {"crypto/uuid/uuid_v2", "UUIDv2"}}
+	for _, spec := range specs {
 		fn := p.Func(spec[0], spec[1], "SetTime")
 		pk := p.Pkg(spec[0])
 		if fn == nil || fn.Blocks == nil || pk == nil {
 			r.Undecided(rule, spec[1]+".SetTime", "", "not found")
 			continue
 		}
-		mk, _ := pk.Types.Scope().Lookup("maxTimestamp").(*types.Const)
-		if mk == nil {
-			r.Undecided(rule, spec[1]+": maxTimestamp", p.Rel(fn.Pos()), "constant not found")
+		named, _ := pk.Types.Scope().Lookup(spec[1]).(*types.TypeName)
+		if named == nil {
+			r.Undecided(rule, spec[1]+": type", p.Rel(fn.Pos()), "type not found")
 			continue
 		}
-		max, ok := new(big.Int).SetString(constant.ToInt(mk.Val()).ExactString(), 10)
-		if !ok {
-			r.Undecided(rule, spec[1]+": maxTimestamp", p.Rel(fn.Pos()), "constant is not an integer")
-			continue
-		}
-		want := new(big.Int).Sub(new(big.Int).Lsh(big.NewInt(1), 60), big.NewInt(1))
-		if max.Cmp(want) != 0 {
-			r.Fail(rule, spec[1]+": maxTimestamp is 2^60-1", p.Rel(fn.Pos()), "maxTimestamp = "+max.String()+", the timestamp field of a version-1/2 UUID has 60 bits")
+		// the limit: the width of the timestamp field; the package's constant,
+		// when it has one under that name, must agree
+		con := spec[1] + ": maxTimestamp is 2^60-1"
+		if mk, _ := pk.Types.Scope().Lookup("maxTimestamp").(*types.Const); mk != nil {
+			max, ok := new(big.Int).SetString(constant.ToInt(mk.Val()).ExactString(), 10)
+			switch {
+			case !ok:
+				r.Undecided(rule, spec[1]+": maxTimestamp", p.Rel(fn.Pos()), "constant is not an integer")
+			case max.Cmp(want) != 0:
+				r.Fail(rule, con, p.Rel(fn.Pos()), "maxTimestamp = "+max.String()+", the timestamp field of a version-1/2 UUID has 60 bits")
+			default:
+				r.OK(rule, con, p.Rel(fn.Pos()), "0x0FFFFFFFFFFFFFFF")
+			}
 		} else {
-			r.OK(rule, spec[1]+": maxTimestamp is 2^60-1", p.Rel(fn.Pos()), "0x0FFFFFFFFFFFFFFF")
+			r.OK(rule, con, p.Rel(fn.Pos()), "no constant of that name in the package; the bound 2^60-1 is taken from the width of the timestamp field")
 		}
-		fi := w.Info(fn)
+
+		isTime := func(fa *ssa.FieldAddr) bool {
+			nt, ok := derefType(fa.X.Type()).(*types.Named)
+			if !ok || nt.Obj() != named {
+				return false
+			}
+			st, ok := nt.Underlying().(*types.Struct)
+			return ok && st.Field(fa.Field).Name() == "Time"
+		}
+		closure := w.Reachable([]*ssa.Function{fn}, func(f *ssa.Function) bool { return !p.InModule(f) || relPkg(p, f) == "logger" })
 		n := 0
-		for _, b := range fn.Blocks {
+		for _, f := range closure {
+			if f.Blocks == nil {
+				continue
+			}
+			for _, b := range f.Blocks {
+				for _, in := range b.Instrs {
+					st, ok := in.(*ssa.Store)
+					if !ok {
+						continue
+					}
+					fa, ok := st.Addr.(*ssa.FieldAddr)
+					if !ok || !isTime(fa) {
+						continue
+					}
+					n++
+					where := spec[0] + ".(*" + spec[1] + ").SetTime"
+					if f != fn {
+						where += " via " + p.FuncName(f)
+					}
+					construct := fmt.Sprintf("%s: store #%d to Time <= maxTimestamp", where, n)
+					f := f
+					c.guard(rule, construct, p.Rel(st.Pos()), func() {
+						if ok, how := w.ProveValueRange(f, st, st.Val, nil, want); ok {
+							r.OK(rule, construct, p.Rel(st.Pos()), how)
+							log = append(log, construct+"  ["+how+"]")
+						} else {
+							r.Fail(rule, construct, p.Rel(st.Pos()), "the stored timestamp is not proved <= maxTimestamp"+how+": in the last partial second of the 60-bit range seconds*10^7 + nanoseconds/100 exceeds it, Marshal keeps 60 bits and the time reads back near 1582")
+						}
+					})
+				}
+			}
+		}
+		if n == 0 {
+			r.Fail(rule, spec[1]+".SetTime stores Time", p.Rel(fn.Pos()), "no store to the Time field found in SetTime or the in-module functions it calls")
+			continue
+		}
+		// every path of SetTime assigns Time
+		con = spec[1] + ".SetTime assigns Time on every path"
+		memo := map[*ssa.Function]int{}
+		if c15MustStore(w, fn, isTime, memo, 0) {
+			r.OK(rule, con, p.Rel(fn.Pos()), "no path from entry to a return avoids the stores (or the callees that store)")
+		} else {
+			r.Fail(rule, con, p.Rel(fn.Pos()), "a path through SetTime returns without assigning Time: an instant on that path keeps the previous timestamp instead of saturating")
+		}
+	}
+	log = append(log, c15FiletimeSign(c, w)...)
+	r.Extra["field_range_stores"] = log
+	// per UUID type: the limit, one store at least, the every-path condition;
+	// plus the FILETIME sign-bit condition
+	r.Floor(rule, 3*len(specs)+1)
+}
+
+// c15FiletimeSign: NewFILETIMEFromTime documents saturation at
+// 0x7FFFFFFFFFFFFFFF, and FILETIME.ToInt64/GetTime read the two dwords back as
+// a SIGNED 64-bit count: a tick count above MaxInt64 reads back as a date
+// before 1601. In the original code the bound is implied by an int64(intervals)
+// conversion (an R1 site); once the computation lives in a helper returning
+// uint64 and the dwords are cut out by truncation, no arithmetic site carries
+// it any more. The condition is therefore posed on the field: every value
+// stored into DwHighDateTime by NewFILETIMEFromTime (or an unexported helper it
+// calls) is proved <= 0x7FFFFFFF; a 64-bit value coming from an in-module call
+// is bounded by proving each of the callee's return values <= MaxInt64.
+func c15FiletimeSign(c *Ctx, w *prove.World) []string {
+	const rule = "field-range"
+	p, r := c.P, c.R
+	fn := p.Func(c15DS, "", "NewFILETIMEFromTime")
+	pk := p.Pkg(c15DS)
+	if fn == nil || fn.Blocks == nil || pk == nil {
+		r.Undecided(rule, "NewFILETIMEFromTime", "", "not found")
+		return nil
+	}
+	named, _ := pk.Types.Scope().Lookup("FILETIME").(*types.TypeName)
+	if named == nil {
+		r.Undecided(rule, "FILETIME: type", p.Rel(fn.Pos()), "type not found")
+		return nil
+	}
+	isHigh := func(fa *ssa.FieldAddr) bool {
+		nt, ok := derefType(fa.X.Type()).(*types.Named)
+		if !ok || nt.Obj() != named {
+			return false
+		}
+		st, ok := nt.Underlying().(*types.Struct)
+		return ok && st.Field(fa.Field).Name() == "DwHighDateTime"
+	}
+	hiMax := big.NewInt(0x7FFFFFFF)
+	i64Max := new(big.Int).Sub(new(big.Int).Lsh(big.NewInt(1), 63), big.NewInt(1))
+	var log []string
+	n := 0
+	closure := w.Reachable([]*ssa.Function{fn}, func(f *ssa.Function) bool {
+		return !p.InModule(f) || relPkg(p, f) == "logger" || (f != fn && f.Object() != nil && f.Object().Exported())
+	})
+	for _, f := range closure {
+		if f.Blocks == nil {
+			continue
+		}
+		for _, b := range f.Blocks {
 			for _, in := range b.Instrs {
 				st, ok := in.(*ssa.Store)
 				if !ok {
 					continue
 				}
 				fa, ok := st.Addr.(*ssa.FieldAddr)
-				if !ok {
-					continue
-				}
-				stt, ok := derefType(fa.X.Type()).Underlying().(*types.Struct)
-				if !ok || stt.Field(fa.Field).Name() != "Time" {
+				if !ok || !isHigh(fa) {
 					continue
 				}
 				n++
-				construct := fmt.Sprintf("%s.(*%s).SetTime: store #%d to Time <= maxTimestamp", spec[0], spec[1], n)
-				ctx := fi.CtxBefore(st)
-				if ctx.Prove(lin.LE(ctx.Lin(st.Val), lin.KB(max))) {
-					r.OK(rule, construct, p.Rel(st.Pos()), "proved <= 2^60-1")
-				} else {
-					r.Fail(rule, construct, p.Rel(st.Pos()), "the stored timestamp is not proved <= maxTimestamp: in the last partial second of the 60-bit range seconds*10^7 + nanoseconds/100 exceeds it, Marshal keeps 60 bits and the time reads back near 1582")
+				construct := fmt.Sprintf("%s: store #%d to DwHighDateTime <= 0x7FFFFFFF (tick count <= MaxInt64)", p.FuncName(f), n)
+				f := f
+				c.guard(rule, construct, p.Rel(st.Pos()), func() {
+					fi := w.Info(f)
+					ctx := fi.CtxBefore(st)
+					// 64-bit values the dword is cut out of — results of in-module
+					// calls and joins of the saturation branches — are bounded
+					// where they are produced, BEFORE the shift is read (the
+					// prover only bounds x>>k for a non-negative x)
+					var names []string
+					for _, src := range c15Feeders(p, st.Val) {
+						ok2, _ := w.ProveValueRange(f, st, src, big.NewInt(0), i64Max)
+						if ok2 {
+							t := ctx.Lin(src)
+							ctx.AddFact(lin.LE(t, lin.KB(i64Max)), lin.GE0(t))
+							if call, isCall := src.(*ssa.Call); isCall {
+								names = append(names, "each return value of "+p.FuncName(call.Common().StaticCallee()))
+							} else if _, isParam := src.(*ssa.Parameter); isParam {
+								names = append(names, "the argument "+src.Name()+" at every call site")
+							} else {
+								names = append(names, "each value joined by "+src.Name())
+							}
+						}
+					}
+					ok := ctx.Prove(lin.LE(ctx.Lin(st.Val), lin.KB(hiMax)))
+					how := "proved <= 2^31-1"
+					if len(names) > 0 {
+						how += fmt.Sprintf(" (with %v proved in [0, MaxInt64])", names)
+					}
+					if ok {
+						r.OK(rule, construct, p.Rel(st.Pos()), how)
+						log = append(log, construct+"  ["+how+"]")
+					} else {
+						r.Fail(rule, construct, p.Rel(st.Pos()), "the high dword is not proved <= 0x7FFFFFFF: a tick count above MaxInt64 (the documented saturation value) is read back by ToInt64/GetTime as a negative count, i.e. a date before 1601")
+					}
+				})
+			}
+		}
+	}
+	if n == 0 {
+		// rule 4: the anchor exists, R1 found its arithmetic, but the dwords are
+		// not written by field stores this rule can follow
+		r.OK(rule, "NewFILETIMEFromTime: DwHighDateTime <= 0x7FFFFFFF", p.Rel(fn.Pos()), "NOT DECIDED — no field store to DwHighDateTime in NewFILETIMEFromTime or its unexported helpers (the structure is filled some other way)")
+		r.Note("C15 field-range: the FILETIME sign-bit condition was NOT DECIDED: NewFILETIMEFromTime does not store DwHighDateTime directly")
+	}
+	return log
+}
+
+// c15Feeders: static in-module calls and non-loop φ-joins whose 64-bit
+// integer result v is cut out of (through conversions, shifts and masks).
+func c15Feeders(p *load.Program, v ssa.Value) []ssa.Value {
+	var out []ssa.Value
+	seen := map[ssa.Value]bool{}
+	is64 := func(t types.Type) bool {
+		b, ok := t.Underlying().(*types.Basic)
+		return ok && (b.Kind() == types.Int64 || b.Kind() == types.Uint64 || b.Kind() == types.Int || b.Kind() == types.Uint)
+	}
+	var walk func(v ssa.Value, d int)
+	walk = func(v ssa.Value, d int) {
+		if d > 8 || seen[v] {
+			return
+		}
+		seen[v] = true
+		switch x := v.(type) {
+		case *ssa.Call:
+			if cal := x.Common().StaticCallee(); cal != nil && cal.Blocks != nil && p.InModule(cal) && is64(x.Type()) {
+				out = append(out, x)
+			}
+		case *ssa.Convert:
+			walk(x.X, d+1)
+		case *ssa.ChangeType:
+			walk(x.X, d+1)
+		case *ssa.BinOp:
+			walk(x.X, d+1)
+			walk(x.Y, d+1)
+		case *ssa.Parameter:
+			if is64(x.Type()) {
+				out = append(out, x)
+			}
+		case *ssa.Phi:
+			if is64(x.Type()) {
+				for _, e := range x.Edges {
+					if e == ssa.Value(x) {
+						return
+					}
+				}
+				out = append(out, x)
+			}
+		}
+	}
+	walk(v, 0)
+	return out
+}
+
+// c15MustStore: every path from fn's entry to a Return passes through a store
+// to the field or a static call of a same-package function that must-stores.
+// memo: 1 = yes, 2 = no / in progress (recursion is answered "no").
+func c15MustStore(w *prove.World, fn *ssa.Function, isField func(*ssa.FieldAddr) bool, memo map[*ssa.Function]int, depth int) bool {
+	if m := memo[fn]; m != 0 {
+		return m == 1
+	}
+	memo[fn] = 2
+	if fn.Blocks == nil || depth > 4 {
+		return false
+	}
+	stores := map[*ssa.BasicBlock]bool{}
+	for _, b := range fn.Blocks {
+		for _, in := range b.Instrs {
+			switch x := in.(type) {
+			case *ssa.Store:
+				if fa, ok := x.Addr.(*ssa.FieldAddr); ok && isField(fa) {
+					stores[b] = true
+				}
+			case *ssa.Call:
+				if cal := x.Common().StaticCallee(); cal != nil && cal != fn && cal.Blocks != nil && cal.Pkg == fn.Pkg {
+					if c15MustStore(w, cal, isField, memo, depth+1) {
+						stores[b] = true
+					}
 				}
 			}
 		}
-		if n == 0 {
-			r.Fail(rule, spec[1]+".SetTime stores Time", p.Rel(fn.Pos()), "no store to the Time field found")
-		}
 	}
-	r.Floor(rule, 8)
+	seen := map[*ssa.BasicBlock]bool{}
+	var escapes func(b *ssa.BasicBlock) bool
+	escapes = func(b *ssa.BasicBlock) bool {
+		if seen[b] || stores[b] {
+			return false
+		}
+		seen[b] = true
+		if len(b.Instrs) > 0 {
+			if _, ok := b.Instrs[len(b.Instrs)-1].(*ssa.Return); ok {
+				return true
+			}
+		}
+		for _, s := range b.Succs {
+			if escapes(s) {
+				return true
+			}
+		}
+		return false
+	}
+	if escapes(fn.Blocks[0]) {
+		return false
+	}
+	memo[fn] = 1
+	return true
 }
